@@ -73,6 +73,8 @@ pub fn interesting_u64(max: u64) -> BoxedStrategy<u64> {
     for k in [7u32, 8, 10, 12, 15, 16, 20, 24, 31, 32, 40, 48, 53, 62, 63] {
         let p = 1u64 << k;
         v.extend([p - 1, p, p + 1]);
+        // a few more neighbours below the power (fields with a bias, saturating counters)
+        v.extend((2..=8).map(|d| p - d));
     }
     v.push(u64::MAX);
     let mut p = 10u64;
